@@ -1,0 +1,79 @@
+//go:build verif
+// +build verif
+
+package livesql
+
+import (
+	"errors"
+	"reflect"
+	"unsafe"
+
+	"github.com/samsarahq/thunder/logger"
+	"github.com/samsarahq/thunder/sqlgen"
+	"github.com/siddontang/go-mysql/replication"
+)
+
+// This file only exists with the verif build tag. It lets a verification harness run
+// the unmodified Binlog.RunPollLoop on an in-process event stream instead of a MySQL
+// replication connection.
+
+func verifSetField(target interface{}, name string, value interface{}) {
+	f := reflect.ValueOf(target).Elem().FieldByName(name)
+	reflect.NewAt(f.Type(), unsafe.Pointer(f.UnsafeAddr())).Elem().Set(reflect.ValueOf(value))
+}
+
+// VerifBinlog is a Binlog fed by the harness.
+type VerifBinlog struct {
+	*Binlog
+	ch  chan *replication.BinlogEvent
+	ech chan error
+}
+
+// NewVerifBinlog builds a Binlog around a BinlogStreamer whose channels the harness owns.
+func NewVerifBinlog(ldb *LiveDB, database string) *VerifBinlog {
+	streamer := &replication.BinlogStreamer{}
+	ch := make(chan *replication.BinlogEvent, 10240)
+	ech := make(chan error, 4)
+	verifSetField(streamer, "ch", ch)
+	verifSetField(streamer, "ech", ech)
+	return &VerifBinlog{
+		Binlog: &Binlog{
+			db:            ldb.DB,
+			database:      database,
+			tracker:       ldb.tracker,
+			streamer:      streamer,
+			tableVersions: make(map[string]uint64),
+			columnMaps:    make(map[string]*columnMap),
+			logger:        logger.New(),
+		},
+		ch:  ch,
+		ech: ech,
+	}
+}
+
+// Inject hands one event to RunPollLoop.
+func (b *VerifBinlog) Inject(ev *replication.BinlogEvent) { b.ch <- ev }
+
+// Stop makes RunPollLoop return nil.
+func (b *VerifBinlog) Stop() {
+	b.mu.Lock()
+	b.closed = true
+	b.mu.Unlock()
+	b.ech <- errors.New("verif: stopped")
+}
+
+// VerifParseBinlogRow decodes one binlog row whose columns are in struct order.
+func VerifParseBinlogRow(table *sqlgen.Table, row []interface{}) (interface{}, error) {
+	cm := &columnMap{expectedColumns: len(row)}
+	for i := range table.Columns {
+		cm.source = append(cm.source, i)
+	}
+	return parseBinlogRow(table, row, cm)
+}
+
+// VerifTrackedResources returns how many live query dependencies are registered.
+func VerifTrackedResources(ldb *LiveDB) int {
+	ldb.tracker.mu.Lock()
+	defer ldb.tracker.mu.Unlock()
+	return len(ldb.tracker.resources)
+}
